@@ -215,6 +215,64 @@ def make_ws(sock, **kw):
     return ws
 
 
+def handshake_sock(**kw):
+    """A ScriptSock whose peer answers the opening request with a valid 101 (nothing else)."""
+    from .ref import handshake as HS
+    sock = ScriptSock(b"", at_end=kw.pop("at_end", "timeout"), **kw)
+
+    def on_send(s, data):
+        if s.on_send is on_send and b"\r\n\r\n" in bytes(s.written):
+            s.on_send = None
+            s.stream += HS.response_101(HS.parse_request(bytes(s.written))["key"])
+
+    sock.on_send = on_send
+    return sock
+
+
+PRELUDES = ["fresh", "connected", "reused", "reused-midmessage", "reused-midframe", "after-send_close"]
+
+
+def prepared_ws(prelude, **kw):
+    """The connection a frame history runs on (returns ws, sock; the transport log and the written bytes start empty, stream offsets
+    continue after the HTTP head):
+      fresh              object with the transport attached by hand (no connect())
+      connected          went through the real connect() and handshake
+      reused*            the same WebSocket object had an earlier life - connected, used, close()d - and is connected again; in the
+                         -midmessage / -midframe variants the first connection was closed while a fragmented message / a frame was
+                         incomplete. Nothing of the first life may matter for the second connection.
+      after-send_close   the application already sent its close frame (RFC 6455 5.5.2: a ping is answered unless a close frame was
+                         *received*; data keeps being delivered until the peer's close arrives)
+    """
+    from .ref import rfc6455 as R
+    if prelude == "fresh":
+        sock = ScriptSock(b"", at_end="timeout")
+        return make_ws(sock, **kw), sock
+    ws = lib.websocket.WebSocket(**kw)
+    if prelude.startswith("reused"):
+        first = handshake_sock()
+        ws.connect("ws://example.com/first", socket=first)
+        first.stream += R.encode(R.PING, b"old") + R.encode(R.TEXT, b"x")
+        if prelude == "reused-midmessage":
+            first.stream += R.encode(R.TEXT, b"y", fin=0)
+        elif prelude == "reused-midframe":
+            first.stream += R.encode(R.BINARY, bytes(300))[:7]
+        for _ in range(3):
+            try:
+                ws.recv_data_frame(True)
+            except lib.websocket.WebSocketTimeoutException:
+                break
+        first.at_end = "eof"
+        ws.close()
+    sock = handshake_sock()
+    ws.connect("ws://example.com/chat", socket=sock)
+    if prelude == "after-send_close":
+        ws.send_close()
+    del sock.stream[sock.cursor:]
+    sock.log = []
+    sock.written = bytearray()
+    return ws, sock
+
+
 def exc_name(e):
     return type(e).__name__
 
